@@ -41,6 +41,18 @@ type Instance struct {
 	Complete bool
 	Typed    bool // values are int32 (GetI32 applies)
 	Small    bool // small enough for String/Marshal in the quick tier
+	// Loads: the operations of this family do not read the shared instance; each
+	// loads a stream into (or builds) an instance of its own and reads it.  The
+	// shared state they can collide on is package-level state of the load and
+	// build paths.
+	Loads []LoadOp
+}
+
+// LoadOp is one "make an instance of my own and read it" operation.
+type LoadOp struct {
+	Name string
+	Make func() *trie.SlimTrie
+	Keys []string
 }
 
 // Op is one read operation with fixed arguments.
@@ -142,6 +154,56 @@ func Instances(seed int64, thorough bool) []*Instance {
 			return st3
 		}, Keys: keys, Typed: true, Small: true})
 	}
+	// 7. separate instances made concurrently: loads of the 0.5.10, 0.5.11 and
+	// current stream generations (no shared instance at all)
+	{
+		keysA := []string{"", "\x00\x10", "\x00\x1f\x01", "\x00\x1f\x02", "\xff\xf0"}
+		keysB := []string{"\x0f", "\x0f\xf0\x00", "\x0f\xf0\xff", "\x7f\x00", "\x7f\x01"}
+		bvals := func(n, base int) [][]byte {
+			bv := make([][]byte, n)
+			for i := range bv {
+				bv[i] = le32(uint32(base + i))
+			}
+			return bv
+		}
+		load := func(stream []byte) func() *trie.SlimTrie {
+			return func() *trie.SlimTrie {
+				st, _ := trie.NewSlimTrie(encode.I32{}, nil, nil)
+				if err := st.Unmarshal(append([]byte{}, stream...)); err != nil {
+					panic(err)
+				}
+				return st
+			}
+		}
+		sA := legacy.Flavours0510["allpref"].Stream("0.5.10", keysA, bvals(len(keysA), 400))
+		sB := legacy.Flavours0510["innpref"].Stream("0.5.11", keysB, bvals(len(keysB), 500))
+		u32 := func(n, base int) []uint32 {
+			r := make([]uint32, n)
+			for i := range r {
+				r[i] = uint32(base + i)
+			}
+			return r
+		}
+		sC, _ := legacy.WriteOld(keysA, u32(len(keysA), 600), legacy.FlavourOf("0.5.9"))
+		cur, err := mustBuild(keysB, ids(len(keysB), 1), trie.Opt{Complete: trie.Bool(true)}).Marshal()
+		if err != nil {
+			panic(err)
+		}
+		loads := []LoadOp{
+			{"Load(0.5.10-allpref A)", load(sA), keysA},
+			{"Load(0.5.11-innpref B)", load(sB), keysB},
+			{"Load(current B)", load(cur), keysB},
+		}
+		// Not in the alphabet: NewSlimTrie and the pre-0.5.10 load (which rebuilds
+		// through the same creator).  The builder ranges over Go maps, whose
+		// iteration order the scheduler cannot own: the step sequence of a build
+		// differs from run to run and no schedule would replay.
+		_ = sC
+		add(&Instance{Name: "separate-instances", Make: func() *trie.SlimTrie {
+			st, _ := trie.NewSlimTrie(encode.I32{}, nil, nil)
+			return st
+		}, Keys: keysA, Loads: loads})
+	}
 	return out
 }
 
@@ -157,6 +219,24 @@ func uniqS(s []string) []string {
 
 // OpsFor returns the operation alphabet for an instance with colliding arguments.
 func OpsFor(in *Instance, thorough bool) []Op {
+	if in.Loads != nil {
+		var ops []Op
+		for _, lo := range in.Loads {
+			lo := lo
+			ops = append(ops, Op{Name: lo.Name + "+read", Long: true, Body: func(_ *trie.SlimTrie) string {
+				st := lo.Make()
+				var sb strings.Builder
+				for _, k := range lo.Keys {
+					v, f := st.Get(k)
+					l, e, r := st.Search(k + "\x01")
+					fmt.Fprint(&sb, v, f, l, e, r, ";")
+				}
+				b, err := st.Marshal()
+				return sha([]byte(sb.String())) + sha(b) + fmt.Sprint(err)
+			}})
+		}
+		return ops
+	}
 	keys := in.Keys
 	k1 := keys[len(keys)/2]
 	k2 := keys[len(keys)/2+1] // neighbour sharing a path prefix
@@ -255,7 +335,12 @@ func Specs(insts []*Instance, thorough bool) []ScenarioSpec {
 				// absent Search and with its neighbour in the alphabet; on the other
 				// instances every operation with itself and with the first lookup,
 				// and neighbouring short operations
-				if !thorough {
+				if !thorough && in.Loads != nil {
+					// quick: every operation with itself, the first load with every other one
+					if !(a == b || a == 0) {
+						continue
+					}
+				} else if !thorough {
 					long := ops[a].Long || ops[b].Long
 					keep := a == b || a == 0
 					if ii == 0 {
